@@ -223,7 +223,7 @@ def run_replay(beh_path, dims, nshards=None, timeout=1800, binary="replay", extr
     procs = []
     scratch_dir = os.path.join(WORK, "scratch", "rt-%d" % os.getpid())
     os.makedirs(scratch_dir, exist_ok=True)
-    env = dict(os.environ, VERIF_SCRATCH=scratch_dir)
+    env = dict(os.environ, VERIF_SCRATCH=scratch_dir, VERIF_STORE_TRACE=store_trace_dir())
     for i in range(nshards):
         cmd = ["timeout", str(timeout), os.path.join(BIN, binary), "-beh", beh_path, "-dims", json.dumps(dims),
                "-shard", str(i), "-nshards", str(nshards)] + list(extra_args)
@@ -241,6 +241,96 @@ def run_replay(beh_path, dims, nshards=None, timeout=1800, binary="replay", extr
             infra.append("replay shard %d exit %d: %s" % (i, p.returncode, err[-2000:]))
     shutil.rmtree(scratch_dir, ignore_errors=True)
     return results, infra
+
+
+# --------------------------------------------------------------------------
+# direction B for stores: every footer swap of every store a replay opens is recorded and
+# validated against TraceStore.tla when the check has replayed everything
+
+def store_trace_dir():
+    d = os.path.join(WORK, "scratch", "st-%d" % os.getpid())
+    os.makedirs(d, exist_ok=True)
+    return d
+
+
+def fname_seq(name):
+    m = re.match(r"data-([0-9a-f]+)\.moss$", name or "")
+    return int(m.group(1), 16) if m else 0
+
+
+def store_trace_records(paths, point_key=None):
+    """Converts recorded store events (ndjson files) into TraceStore records; store ids are made unique across files."""
+    recs, nstore = [], 0
+    names = {"store.open": "new", "store.persist.swap": "persist", "store.compact.swap": "compact", "store.revert.swap": "revert"}
+    for fn in paths:
+        base, seen = nstore, {}
+        with open(fn) as f:
+            for line in f:
+                try:
+                    e = json.loads(line)
+                except ValueError:
+                    continue
+                if "s" not in e:
+                    continue
+                ev = e.get("ev") or names.get(e.get("point"))
+                if not ev:
+                    continue
+                if e["s"] not in seen:
+                    seen[e["s"]] = base + len(seen) + 1
+                    nstore = max(nstore, seen[e["s"]])
+                    if ev != "new":     # the store was opened before the recorder knew it
+                        ev = "new"
+                recs.append({"ev": ev, "s": seen[e["s"]], "file": fname_seq(e.get("file")), "pos": e.get("pos", 0), "prev": e.get("prev", 0),
+                             "nsl": e.get("nsl", 0), "pers": e.get("pers", 0), "comp": e.get("comp", 0), "comppt": e.get("comppt", 0), "splice": e.get("splice", 0)})
+    return recs, nstore
+
+
+def validate_store_trace(rep, work, recs, nstore, prop, label):
+    """TLC over TraceStore.tla; an event the specification cannot explain is reported as a violation, the
+    specification re-synchronised and the rest of the trace checked (at most 12 times)."""
+    if not recs:
+        return 0
+    unexplained = []
+    for attempt in range(12):
+        tf = os.path.join(work, "storetrace.ndjson")
+        with open(tf, "w") as f:
+            for r in recs:
+                f.write(json.dumps(r) + "\n")
+        cfg = os.path.join(work, "storetrace.cfg")
+        write_cfg(cfg, {"TraceFile": '"%s"' % tf, "MaxStore": str(max(1, nstore))}, init="SInit", next_="SNext",
+                  invariants=["Mark"], postcondition="Accepted")
+        try:
+            res = run_tlc("TraceStore.tla", cfg, work, workers=1, timeout=900)
+            out = res.out
+        except Infra as e:
+            out = str(e)
+        m = re.search(r'"REJECTED-AT", (\d+)', out)
+        if not m:
+            break
+        at = int(m.group(1))
+        bad = recs[at - 1]
+        prev = None
+        for r in reversed(recs[:at - 1]):
+            if r["s"] == bad["s"]:
+                prev = r
+                break
+        unexplained.append({"event": at, "record": bad, "previous_of_that_store": prev})
+        recs.insert(at - 1, dict(bad, ev="resync"))
+    rep.extra["store_trace"] = {"source": label, "footer_swaps_validated": len([r for r in recs if r["ev"] not in ("new", "resync")]),
+                                "stores": nstore, "unexplained": unexplained[:10]}
+    for u in unexplained:
+        rep.violation("a footer swap is not a step of the store's footer dynamics (TraceStore): %s after %s" % (json.dumps(u["record"]), json.dumps(u["previous_of_that_store"])),
+                      {"property": prop, "engine": "tracestore", "event": u})
+    return len(recs)
+
+
+def validate_replay_store_traces(rep, work, prop):
+    d = store_trace_dir()
+    paths = sorted(os.path.join(d, f) for f in os.listdir(d) if f.endswith(".ndjson"))
+    recs, nstore = store_trace_records(paths)
+    n = validate_store_trace(rep, work, recs, nstore, prop, "the stores opened by this check's replays")
+    shutil.rmtree(d, ignore_errors=True)
+    return n
 
 
 # --------------------------------------------------------------------------
